@@ -11,7 +11,8 @@
                                  parent[c] = None ; parent[x] = p for x in news
      move_to(n, t, prefix)       parent[n].remove_child(n) if parent[n] ; insert n before/behind t
                                  in kids[parent[t]] ; parent[n] = parent[t]
-     copy(n)                     deep copy of the subtree of n into fresh objects, parent = None
+     copy(n)                     deep copy of the subtree of n into fresh objects, parent = None;
+                                 if the deep copy raises, nothing has changed
 
    An operation is *enabled* exactly when the real method returns without raising (ValueError
    from _id_index, AttributeError on a None parent).  With Guarded = TRUE each operation
@@ -171,12 +172,21 @@ Copy(n) ==
         /\ text' = [m \in Nodes |-> IF m \in Range(dst) THEN text[src[CHOOSE i \in 1..Len(dst) : dst[i] = m]] ELSE text[m]]
   /\ Out("copy", <<n>>)
 
+\* copy() is atomic: when the deep copy fails half way (RecursionError on a very deep subtree,
+\* an attribute that cannot be copied) the heap is exactly what it was — in particular the node's
+\* parent link, which copy() clears for the duration of the copy, is back
+CopyFails(n) ==
+  /\ Bound /\ ConsistentSub(n)
+  /\ UNCHANGED <<parent, kids, alloc, text>>
+  /\ Out("copy_fails", <<n>>)
+
 DoAppend  == \E p, c \in alloc : AppendChild(p, c)
 DoRemove  == \E p, c \in alloc : RemoveChild(p, c)
 DoReplace == \E p, c \in alloc : \E news \in NewsChoices(c) : ReplaceChild(p, c, news)
 DoMove    == \E n, t \in alloc : \E prefix \in BOOLEAN : MoveTo(n, t, prefix)
 DoCopy    == \E n \in alloc : Copy(n)
-Next == New \/ DoAppend \/ DoRemove \/ DoReplace \/ DoMove \/ DoCopy
+DoCopyFails == \E n \in alloc : CopyFails(n)
+Next == New \/ DoAppend \/ DoRemove \/ DoReplace \/ DoMove \/ DoCopy \/ DoCopyFails
 
 Spec == Init /\ [][Next]_vars
 
